@@ -83,7 +83,20 @@ func mutate(t *rapid.T, in []byte, k int) []byte {
 		if len(out) > 0 {
 			pos = rapid.IntRange(0, len(out)).Draw(t, "pos")
 		}
-		switch rapid.IntRange(0, 6).Draw(t, "mutation") {
+		switch rapid.IntRange(0, 8).Draw(t, "mutation") {
+		case 7, 8: // replace the word at pos (name, keyword, number) by a token
+			isWord := func(c byte) bool {
+				return c == '_' || c >= '0' && c <= '9' || c >= 'a' && c <= 'z' || c >= 'A' && c <= 'Z'
+			}
+			a, b := pos, pos
+			for a > 0 && isWord(out[a-1]) {
+				a--
+			}
+			for b < len(out) && isWord(out[b]) {
+				b++
+			}
+			tok := rapid.SampledFrom(tokens).Draw(t, "reptok")
+			out = append(out[:a], append([]byte(tok), out[b:]...)...)
 		case 0: // insert a token
 			tok := rapid.SampledFrom(tokens).Draw(t, "instok")
 			out = append(out[:pos], append([]byte(tok), out[pos:]...)...)
@@ -169,7 +182,7 @@ func checkInput(part string, in []byte, o labeler, nonTrivial func(string)) pbt.
 		nonTrivial(string(in))
 	}
 	L, F := limitsFor(in)
-	if v := checkLimits(in, L, F, o); v.Msg != "" {
+	if v := checkLimits(in, L, F, o, "bytes:limits"); v.Msg != "" {
 		return v
 	}
 	doc, rep := parseBytes(in)
